@@ -14,7 +14,7 @@ import (
 )
 
 type Case struct {
-	Cmp     string      `json:"cmp"` // "semver" | "int"
+	Cmp     string      `json:"cmp"` // "semver" | "int" | "lex"
 	Version string      `json:"version"`
 	Caps    [][][2]string `json:"caps"` // per capability: list of [lower, upper]
 	Odd     bool        `json:"odd,omitempty"` // last range of cap 0 given as a single trailing lower bound
@@ -132,6 +132,9 @@ func cmpSemver(a, b sv) int {
 
 // refCmp returns (cmp, ok) under the named comparer, independent of the library.
 func refCmp(kind, a, b string) (int, bool) {
+	if kind == "lex" {
+		return strings.Compare(a, b), true
+	}
 	if kind == "int" {
 		x, ok1 := isNum(a)
 		y, ok2 := isNum(b)
@@ -280,6 +283,9 @@ func exec(c Case) (o obs, pan bool, msg string) {
 		if c.Cmp == "int" {
 			t.VersionComparer = intComparer
 		}
+		if c.Cmp == "lex" {
+			t.VersionComparer = func(a, b string) (int, error) { return strings.Compare(a, b), nil }
+		}
 		var caps []*capability.Capability
 		for i, rs := range c.Caps {
 			var args []string
@@ -418,7 +424,12 @@ func main() {
 	// "cannot parse" is relative to the comparer: the grid must be classified identically by the
 	// default comparer and by the reference parser, otherwise the grid (not the code) is wrong.
 	for _, v := range append(append([]string{}, grid...), bad...) {
-		_, err := capability.VersionCompareSemantic(v, v)
+		// compared with a partner that certainly parses, in both positions (a comparer may
+		// legitimately short-cut identical arguments)
+		_, err := capability.VersionCompareSemantic(v, "1.0.0")
+		if _, err2 := capability.VersionCompareSemantic("1.0.0", v); err == nil {
+			err = err2
+		}
 		if (err == nil) != parsable("semver", v) {
 			h.Fatal("grid string %q: comparer parses=%v reference parses=%v", v, err == nil, parsable("semver", v))
 		}
@@ -565,6 +576,19 @@ func main() {
 				h.Section("two-caps", 2)
 			}
 		}
+	}
+	// history across comparers: the same range strings evaluated under the default comparer,
+	// then under a lexicographic one (which orders "1.10.0" before "1.2.0"), then under each
+	// again — whatever an earlier evaluation left behind must not change a later verdict.
+	for i, r := range ranges {
+		if !h.Mine(i) {
+			continue
+		}
+		for pass := 0; pass < 2; pass++ {
+			emit("semver", [][2]string{r}, versions, false)
+			emit("lex", [][2]string{r}, versions, false)
+		}
+		h.Section("cross-comparer", 4)
 	}
 	// custom comparer: integers
 	ib := []string{"", "1", "2", "3", "5", "10", "x"}
